@@ -20,7 +20,18 @@ correspondence:  (a) _get_numbers_distance on a grid of special values x max_ an
                  (g) deep_distance computed by the model from the inputs alone
                  (Diff/DiffModel.v diff + Dist/DistDiffModel.v delta view) in
                  default and zip_ordered_iterables mode, with the hypotheses of
-                 C19_deep_distance_range_ordered (opcode tiling, type-change guard).
+                 C19_deep_distance_range_ordered (opcode tiling, type-change guard);
+                 (i) ignore_order=True (with and without report_repetition, several
+                 pairing knobs): deep_distance, the operation count and the item
+                 lengths computed by the model from the inputs and the pairings the
+                 run used (recorded with C05's recorder) alone
+                 (DiffIO/DiffIOModel.v diff_io + Dist/DistIOModel.v), the type-change
+                 guard and io_guard of C19_deep_distance_range_ignore_order recomputed
+                 independently; inside the guards the implementation is in range.
+                 Inputs: a fixed fraction holds ONE container object at several
+                 positions ([row] * k, values.share); the model gets the unfolded tree,
+                 failing cases travel as expressions that rebuild the sharing; every
+                 pair is also run under a random combination of 2-4 options.
 direct oracle:   the statement itself on the public API (range, 0/absent for
                  equal inputs, positive for a non-empty default diff, never
                  raises) and on the number/date/time distance functions (range,
@@ -50,16 +61,22 @@ RULE = ("numbers: all ordered pairs of a grid of special ints/bools/floats/Decim
         "1e308, 1.7e308, max double, overflow boundary of float(int), 10**400, inf, nan) x max_ in a grid, plus random "
         "doubles from random bit patterns; scalars: dates, datetimes (naive/aware, far future), timedeltas, times; "
         "rough distance: pairs from harness.values (random nested values + 1..3 edits, small exhaustive universe, "
-        "scalar vs container, different scalar types) x ignore_order x view x cutoff_distance_for_pairs; a case is "
-        "non-trivial when the two inputs differ; distinct = distinct (inputs, configuration)")
+        "scalar vs container, different scalar types, one container object referenced k times ([row] * k) and random "
+        "re-use of a container at a second position) x ignore_order x view x cutoff_distance_for_pairs, plus a random "
+        "combination of 2-4 options per pair (report_repetition, zip_ordered_iterables, cutoff_intersection_for_pairs, "
+        "max_passes, verbose_level, threshold_to_diff_deeper, ignore_numeric/string_type_changes, cache_size, int vs float cutoff); "
+        "ignore-order model stream: C05's ignore-order pairs, lists with an item repeated k times, x report_repetition x pairing knobs; "
+        "a case is non-trivial when the two inputs differ; distinct = distinct (inputs, configuration)")
 TRUSTED = [
-    "in ignore_order mode the delta-view dict is an INPUT of the rough-distance model: the harness converts the dict the "
-    "implementation actually consumed into the model's generic `dv` tree; in ordered mode it is derived from Diff/DiffModel.v",
+    "the delta-view dict is derived from the diff models (ordered: Diff/DiffModel.v; ignore_order: DiffIO/DiffIOModel.v with the "
+    "pairings the run used as oracle values); in addition every dict the implementation actually consumed (root and pairing calls) "
+    "is converted generically into the model's `dv` tree and the rough-distance model is compared on it",
     "use_log_scale=True (math.log) is not modelled; numpy arrays only through the scalar formula of _get_numpy_array_distance",
     "Coq's primitive floats implement IEEE binary64 as CPython's float does (PrimFloat / FloatAxioms specification axioms)",
 ]
 ASSUMPTIONS = [
-    "tree-shaped inputs (no object shared between two positions, no cycles): the id()-based parents check of _get_item_length never fires",
+    "acyclic inputs: the id()-based parents check of _get_item_length never fires (objects shared between positions are generated; "
+    "the model is fed the unfolded tree)",
     "default DeepHash parameters for item lengths (ignore_private_variables=True; no exclude/include filters)",
     "naive datetimes are interpreted in UTC (the check sets TZ=UTC)",
 ]
@@ -733,7 +750,12 @@ class Recorder:
 
         def wrapper(self_):
             r = {"t1": self_.t1, "t2": self_.t2, "cutoff": getattr(self_, "cutoff_distance_for_pairs", None),
-                 "view": getattr(self_, "view", None), "root": bool(getattr(self_, "is_root", False))}
+                 "view": getattr(self_, "view", None), "root": bool(getattr(self_, "is_root", False)), "inst": id(self_),
+                 "ignore_order": bool(getattr(self_, "ignore_order", False)), "rep": bool(getattr(self_, "report_repetition", False))}
+            try:
+                r["tcs"] = [(lv.t1, lv.t2) for lv in (self_.tree.get("type_changes") or [])]
+            except Exception:  # noqa
+                r["tcs"] = None
             try:
                 out = orig(self_)
                 r["result"] = ("ok", out)
@@ -758,6 +780,88 @@ class Recorder:
         if self.installed:
             self.cls._get_rough_distance = self.orig
             self.installed = False
+
+
+class InstancePairs:
+    """The pairings used by EVERY DeepDiff instance of a run - the root and the nested ones created for pairing distances
+    (C05's recorder, which this wraps and leaves in place, looks at the root only) - in the record shape of C05
+    (c05.pairs_table / c05.pairs_valid apply).  Installed in this process only."""
+
+    def __init__(self):
+        self.by_inst = {}
+        self.keep = []
+        self.installed = False
+
+    def install(self):
+        try:
+            from deepdiff.diff import DeepDiff
+            o_iter, o_pairs = DeepDiff._diff_iterable_with_deephash, DeepDiff._get_most_in_common_pairs_in_iterables
+        except Exception:
+            return
+        me = self
+        stacks = {}
+
+        def w_iter(self_, level, parents_ids, _original_type=None, local_tree=None):
+            st = stacks.setdefault(id(self_), [])
+            st.append(level)
+            try:
+                return o_iter(self_, level, parents_ids, _original_type=_original_type, local_tree=local_tree)
+            finally:
+                st.pop()
+
+        def w_pairs(self_, hashes_added, hashes_removed, t1_hashtable, t2_hashtable, parents_ids, _original_type):
+            added, removed = list(hashes_added), list(hashes_removed)
+            out = o_pairs(self_, hashes_added, hashes_removed, t1_hashtable, t2_hashtable, parents_ids, _original_type)
+            st = stacks.get(id(self_))
+            if st:
+                me.keep.append(self_)             # the instance stays alive: its id is not reused within the run
+                me.by_inst.setdefault(id(self_), []).append(
+                    {"level": st[-1], "added": added, "removed": removed, "pairs": dict(out),
+                     "t1_first": {h: t1_hashtable[h].indexes[0] for h in removed if h in t1_hashtable},
+                     "t2_first": {h: t2_hashtable[h].indexes[0] for h in added if h in t2_hashtable}})
+            return out
+        self.cls, self.o_iter, self.o_pairs = DeepDiff, o_iter, o_pairs
+        DeepDiff._diff_iterable_with_deephash, DeepDiff._get_most_in_common_pairs_in_iterables = w_iter, w_pairs
+        self.installed = True
+
+    def clear(self):
+        self.by_inst.clear()
+        del self.keep[:]
+
+    def uninstall(self):
+        if self.installed:
+            self.cls._diff_iterable_with_deephash, self.cls._get_most_in_common_pairs_in_iterables = self.o_iter, self.o_pairs
+            self.installed = False
+
+
+NESTED_MODEL_KEYS = {"ignore_order", "view", "cutoff_distance_for_pairs", "report_repetition", "cutoff_intersection_for_pairs",
+                     "max_passes", "verbose_level", "cache_size", "threshold_to_diff_deeper"}
+
+
+def nested_model_case(r, cfg, ip):
+    """a pairing distance - the nested DeepDiff(removed item, added item, view='delta')._get_rough_distance() recorded in r -
+    recomputed by the model from the two items and the nested run's own pairings (Dist/DistIOModel.v pair_distance:
+    diff_io, the add/remove rewrite when repetitions are not reported, the ignore-order delta view)"""
+    from harness import diffcommon as D
+    from harness.props import c05
+    x, y = r["t1"], r["t2"]
+    recs = ip.by_inst.get(r["inst"], [])
+    tbl = c05.pairs_table(recs)
+    inc, guard = [], True
+    for a, b in r["tcs"]:
+        try:
+            include = bool(type(b)(a) != b)
+        except Exception:
+            include = True
+        inc.append("(%s, %s, %s)" % (values.to_coq(a), values.to_coq(b), core.coq_bool(include)))
+        guard = guard and (2 + (ilen(b) if include else 0) <= icount(a) + icount(b))
+    thr = cfg.get("threshold_to_diff_deeper", 0.33)
+    expr = "dist_io_case true %s %s %s [%s] %s %s %s" % (
+        D.coq_cfg(False, thr, True), core.coq_bool(r["rep"]), c05.coq_pairs_table(tbl), "; ".join(inc), coq_float(float(r["cutoff"])),
+        values.to_coq(x), values.to_coq(y))
+    # last component: mutual_ok, the hypothesis of C19_pair_distance_range_default, observed on the nested run's levels
+    exp = [obs_rough(r["result"][1]), delta_ops(r["delta"]), icount(x), icount(y), bool(guard), bool(items_unrepeated(x, r["rep"])), True]
+    return expr, exp, all(c05.pairs_valid(q) for q in recs), sum(len(ji) for _p, ji, _a, _b in tbl)
 
 
 def gen_pairs(ctx):
@@ -1088,9 +1192,13 @@ def rough_part(ctx):
     rec = Recorder()
     rec.install()
     ctx.note("recorder_installed", rec.installed)
+    ip = InstancePairs()
+    ip.install()
     cases = []
     sd_cases = []
     dm_cases = []
+    np_cases = []
+    np_cap = 3000 if ctx.thorough else 260
     seen_keys = set()
     try:
         for (t1, t2, how) in gen_pairs(ctx):
@@ -1098,6 +1206,7 @@ def rough_part(ctx):
                 + rng.sample(CONFIGS[3:], 2 if ctx.thorough else 1) + [combo_config(crng) for _ in range(2 if ctx.thorough else 1)]
             for cfg in cfgs:
                 rec.records.clear()
+                ip.clear()
                 a, b = copy.deepcopy(t1), copy.deepcopy(t2)        # deepcopy keeps objects shared inside t1 / t2 shared
                 d = oracle_pair(ctx, a, b, cfg, how, texts=(text_of(t1), text_of(t2)))
                 nt = not same_typed(t1, t2)
@@ -1148,7 +1257,8 @@ def rough_part(ctx):
                     if key in seen_keys:
                         continue
                     seen_keys.add(key)
-                    if in_universe(r["t1"]) and in_universe(r["t2"]) and res[0] == "ok" and not cfg.get("report_repetition"):
+                    if in_universe(r["t1"]) and in_universe(r["t2"]) and res[0] == "ok" and not cfg.get("report_repetition") \
+                            and (ctx.thorough or (cfg in CONFIGS and how != "shared_rows")):
                         # (with report_repetition a paired item is reported once per repetition: K28 - such deltas are
                         # not position-disjoint; they are covered by the ignore-order model stream)
                         try:
@@ -1169,6 +1279,28 @@ def rough_part(ctx):
                     cases.append((term, exp, {"t1": repr(r["t1"]), "t2": repr(r["t2"]), "config": cfg, "root_call": r["root"],
                                               "impl": repr(res[1]), "delta": repr(r["delta"])[:600]}))
                     ctx.count("rough_records:" + ("root" if r["root"] else "pairing"))
+                    if not r["root"] and res[0] == "ok" and r.get("ignore_order") and r.get("tcs") is not None and ip.installed \
+                            and len(np_cases) < np_cap and set(cfg) <= NESTED_MODEL_KEYS:
+                        from harness import diffcommon as D
+                        from harness.props import c05
+                        x, y = r["t1"], r["t2"]
+                        try:
+                            okm = in_universe(x) and in_universe(y) and D.in_model_guard(x, y) and not values.contains_alias(x, y) \
+                                and not c05.has_tag_like(x, y) and not has_crash_key(x) and not has_crash_key(y) \
+                                and not (isinstance(x, SCALAR_TYPES) and isinstance(y, SCALAR_TYPES))
+                            if okm:
+                                expr, expn, valid, paired = nested_model_case(r, cfg, ip)
+                                np_cases.append((expr, expn, {"t1": repr(x), "t2": repr(y), "config": cfg, "impl": repr(res[1]), "nested": True}))
+                                ctx.count("pair_distance_model:" + ("rep" if r["rep"] else "norep") + ("/with_pairs" if paired else "/no_pairs"))
+                                if not valid:
+                                    ctx.break_("correspondence", {"name": "nested pairing", "t1": repr(x), "t2": repr(y), "config": cfg,
+                                                                  "what": "recorded nested pairing is not a symmetric partial injection"})
+                                inside = expn[4] and (not r["rep"] or expn[5] or not paired)
+                                if inside and isinstance(res[1], (int, float)) and res[1] > 1:
+                                    ctx.break_("correspondence", {"name": "pair_distance_range", "t1": repr(x), "t2": repr(y), "config": cfg,
+                                                                  "meaning": "inside io_guard and the type-change guard but the pairing distance is %r" % (res[1],)})
+                        except (TypeError, AssertionError, KeyError):
+                            ctx.count("pair_distance_model:not_expressible")
                     if not r["root"] and res[0] == "ok":
                         # the pairing distances themselves: range
                         x = res[1]
@@ -1193,7 +1325,9 @@ def rough_part(ctx):
                 if len(ctx.samples) < 4 and d is not None and nt and how.startswith("edit"):
                     ctx.sample({"t1": repr(t1)[:200], "t2": repr(t2)[:200], "config": cfg, "deep_distance": repr(d.get("deep_distance"))})
     finally:
+        ip.uninstall()
         rec.uninstall()
+    ctx.coq_cases("pairdist", IO_HEADER, np_cases, shard=40, label="pairing_distance_from_ignore_order_diff_model")
     ctx.coq_cases("rough", HEADER, cases, shard=150, label="rough_distance")
     ctx.coq_cases("sdelta", HEADER, sd_cases, shard=150, label="delta_as_positions")
     ctx.coq_cases("diffmodel", HEADER + "\nFrom DD Require Import Diff.Tree Diff.DiffModel Diff.DiffShow Dist.DistDiffModel.",
@@ -1300,7 +1434,7 @@ def io_model_case(a, b, cfg, rec19):
     cut = coq_float(float(cfg.get("cutoff_distance_for_pairs", 0.3)))
     expr = "dist_io_case false %s %s %s [%s] %s %s %s" % (
         D.coq_cfg(False, 0.33, True), core.coq_bool(rep), c05.coq_pairs_table(tbl), "; ".join(inc), cut, values.to_coq(a), values.to_coq(b))
-    exp = [obs_rough(dist), n_impl, icount(a), icount(b), bool(tguard), bool(uniq)]
+    exp = [obs_rough(dist), n_impl, icount(a), icount(b), bool(tguard), bool(uniq), True]
     inside = bool(tguard) and (not rep or uniq or not paired)
     return expr, exp, {"dist": dist, "paired": paired, "levels": len(tbl), "valid": valid, "inside": inside, "rep": rep,
                        "scalar_root": scalar_root, "n": n_impl, "m": m}
@@ -1328,7 +1462,7 @@ def io_pairs(ctx):
         x = values.gen_value(rng, depth=rng.choice([1, 1, 2]), width=rng.choice([1, 2, 3]), kinds="LTD")
         y, _k = values.edit(rng, copy.deepcopy(x))
         k = rng.randint(2, 9)
-        a = [copy.deepcopy(x) for _i in range(k)] + ([values.gen_atom(rng)] if rng.random() < 0.3 else [])
+        a = ([x] * k if rng.random() < 0.5 else [copy.deepcopy(x) for _i in range(k)]) + ([values.gen_atom(rng)] if rng.random() < 0.3 else [])
         b = [y] * rng.randint(1, 2) + ([values.gen_atom(rng)] if rng.random() < 0.3 else [])
         if rng.random() < 0.5:
             a, b = b, a
@@ -1351,6 +1485,11 @@ def io_model_part(ctx):
                  ("hand", "edit", "multi_edit_list", "shuffled_containers", "universe", "unrelated")]
         rng.shuffle(pairs)
         pairs = io_pairs(sub) + pairs[:(4000 if ctx.thorough else 110)]
+        for i, (t1, t2, how) in enumerate(pairs):
+            if how in ("c05_gen", "c05_fixed", "edit", "multi_edit_list", "shuffled_containers") or how.startswith("edit"):
+                a, _sa = maybe_share(rng, t1, 0.25)
+                b, _sb = maybe_share(rng, t2, 0.25)
+                pairs[i] = (a, b, how)
         for (t1, t2, how) in pairs:
             try:
                 ok = in_universe(t1) and in_universe(t2) and D.in_model_guard(t1, t2) and not values.contains_alias(t1, t2) \
@@ -1365,8 +1504,10 @@ def io_model_part(ctx):
                 for rep in (False, True):
                     cfg = dict(kn, ignore_order=True, report_repetition=rep)
                     a, b = copy.deepcopy(t1), copy.deepcopy(t2)
-                    d = oracle_pair(ctx, a, b, cfg, how)
-                    ctx.seen(("io_model", repr(t1), repr(t2), repr(sorted(cfg.items()))), nontrivial=not same_typed(t1, t2))
+                    d = oracle_pair(ctx, a, b, cfg, how, texts=(text_of(t1), text_of(t2)))
+                    ctx.seen(("io_model", text_of(t1), text_of(t2), repr(sorted(cfg.items()))), nontrivial=not same_typed(t1, t2))
+                    if has_sharing(t1) or has_sharing(t2):
+                        ctx.count("io_model_inputs:with_shared_object")
                     if d is None:
                         continue
                     try:
@@ -1690,18 +1831,33 @@ def m_opcodes_hide_operations(case):
     return ilen({k: v for k, v in delta.items() if not k.startswith("_")}) == 0
 
 
+def _log_distance(a, b):
+    """the raw logarithmic distance (K25 predicts exactly this value, unclamped)"""
+    fa, fb = float(a), float(b)
+    return abs(math.copysign(math.log(abs(fa) + 1e-10), fa) - math.copysign(math.log(abs(fb) + 1e-10), fb))
+
+
 def m_log_scale_unclamped(case):
     """use_log_scale=True: the logarithmic distance is returned as it is, not clamped to max_"""
     if case.get("kind") == "numbers_log":
         if "exception" in case:
             return False
         r, mx = _ev(case["result"]), _ev(case["max_"])
-        return isinstance(r, float) and r > mx
+        try:
+            pred = _log_distance(_ev(case["a"]), _ev(case["b"]))
+        except Exception:
+            return False
+        return isinstance(r, float) and r > mx and r == pred
     if case.get("kind") == "deep_distance" and case.get("config", {}).get("use_log_scale") and "exception" not in case:
         t1, t2 = _ev(case["t1"]), _ev(case["t2"])
         dist = _ev(case.get("deep_distance", "None"))
         num = (bool, int, float, Decimal)
-        return isinstance(t1, num) and isinstance(t2, num) and dist is not None and dist > 1
+        if not (isinstance(t1, num) and isinstance(t2, num) and dist is not None and dist > 1):
+            return False
+        try:
+            return dist == _log_distance(t1, t2)
+        except Exception:
+            return False
     return False
 
 
